@@ -242,7 +242,21 @@ def gen_fileset(rng, nfiles=None, nstructs=None, nifaces=None, depth=None, allow
                     base = rng.choice(ctx.vis_ifaces())
                 decls.append(gen_iface(ctx, ctx.fresh("I"), base, allow_obj_struct=allow_obj_struct))
         files.append({"path": path, "includes": incs, "decls": decls})
-    return {"files": files, "main": "main.idl", "idirs": []}, ctx
+    return prune_unreachable({"files": files, "main": "main.idl", "idirs": []}), ctx
+
+
+def prune_unreachable(fs):
+    """keep only the files the main file reaches through includes"""
+    by = {f["path"]: f for f in fs["files"]}
+    seen, todo = set(), [fs["main"]]
+    while todo:
+        p = todo.pop()
+        if p in seen or p not in by:
+            continue
+        seen.add(p)
+        todo += by[p]["includes"]
+    fs["files"] = [f for f in fs["files"] if f["path"] in seen]
+    return fs
 
 
 # ------------------------------------------------------------------ rendering
